@@ -41,16 +41,16 @@ def gen_cases(tier, seed):
             ratio = [1.0, 1.0, 1.0]
         out.append({"cls": "dist:" + shape, "shape": shape, "dims": [float(10 ** rng.uniform(1, 4)) for _ in range(3)], "N": N,
                     "log10E": float(rng.uniform(3, 12)), "energy_callable": bool(rng.integers(0, 2)), "ratio": ratio,
-                    "source": ["cosmogenic", "astrophysical"][int(rng.integers(0, 2))], "model": ["CTW", "GQRS"][int(rng.integers(0, 2))],
+                    "source": ["cosmogenic", "astrophysical"][int(rng.integers(0, 2))], "model": ["CTW", "GQRS"][(i // 2) % 2],      # every shape with every model
                     "salt": int(rng.integers(0, 2**31))})
     for i in range(2 if tier == "quick" else 12):
         shape = ["cyl", "box"][i % 2]
         out.append({"cls": "shadow:" + shape, "shape": shape, "dims": [float(10 ** rng.uniform(2, 4)) for _ in range(3)], "M": 3000 if tier == "quick" else 8000,
-                    "log10E": float(rng.uniform(7, 11)), "model": ["CTW", "GQRS"][int(rng.integers(0, 2))], "salt": int(rng.integers(0, 2**31))})
-    geoms = ["random", "axis-parallel", "one-zero-component", "grazing", "vertex-on-boundary"]
-    for i in range(10 if tier == "quick" else 200):
+                    "log10E": float(rng.uniform(7, 11)), "model": ["CTW", "GQRS"][(i // 2 + 1) % 2], "salt": int(rng.integers(0, 2**31))})
+    geoms = ["random", "axis-parallel", "one-zero-component", "grazing", "vertex-on-boundary", "integer-vertex"]
+    for i in range(12 if tier == "quick" else 240):
         shape = ["cyl", "box"][i % 2]
-        out.append({"cls": "exit:%s:%s" % (shape, geoms[(i // 2) % 5]), "shape": shape, "geom": geoms[(i // 2) % 5], "dims": [float(10 ** rng.uniform(1, 4)) for _ in range(3)],
+        out.append({"cls": "exit:%s:%s" % (shape, geoms[(i // 2) % 6]), "shape": shape, "geom": geoms[(i // 2) % 6], "dims": [float(10 ** rng.uniform(1, 4)) for _ in range(3)],
                     "n": 400, "salt": int(rng.integers(0, 2**31))})
     for i in range(6 if tier == "quick" else 60):
         out.append({"cls": "list", "n_events": int(rng.integers(1, 7)), "loop": bool(i % 2), "draws": int(rng.integers(1, 25)), "salt": int(rng.integers(0, 2**31))})
@@ -285,6 +285,10 @@ def run_exit(case, v):
                 vtx[ax] = [float(rng.choice([-1, 1])) * d[0] / 2, float(rng.choice([-1, 1])) * d[1] / 2, float(rng.choice([0.0, -d[2]]))][ax]
         if not np.any(u):
             continue
+        if g == "integer-vertex":
+            # whole-number coordinates handed over as Python ints / an int array (inside the volume)
+            iv = [int(np.trunc(x)) for x in vtx]
+            vtx = [tuple(iv), list(iv), np.array(iv, dtype=int)][int(rng.integers(0, 3))]
         p = pp.Particle("nu_e", vtx, u, 1e9, interaction_model=NI)     # Particle normalises the direction
         t_in, t_out = chord_in_volume(case, np.asarray(p.vertex, float), np.asarray(p.direction, float))
         if g == "vertex-on-boundary" and not (t_in <= 1e-9 * max(d) and t_out >= -1e-9 * max(d) and t_out - t_in > 1e-6 * max(d)):
